@@ -181,6 +181,13 @@ func (db *DB) Backup(dir string) error {
 
 	// 如果使用 mmap IO实现, 需要先将所有文件大小更新为真实大小
 	if db.options.FileIOType == fio.MemoryMap {
+		// 拷贝完成后恢复文件大小, 否则映射区域仍在使用而文件已被截断, 后续写入会丢失或触发 SIGBUS
+		defer func() {
+			_ = db.activeFile.ReadWriter.(*fio.MMap).RestoreMapSize()
+			for _, file := range db.olderFiles {
+				_ = file.ReadWriter.(*fio.MMap).RestoreMapSize()
+			}
+		}()
 		if err := db.activeFile.ReadWriter.(*fio.MMap).ResetFileSize(); err != nil {
 			return err
 		}
